@@ -347,7 +347,22 @@ pub struct Case
     pub knobs : Knobs,
 }
 
-pub const RULER_DIR : &str = ".ruler";
+thread_local!
+{
+    static RULER_DIR_NAME : std::cell::RefCell<String> = std::cell::RefCell::new(".ruler".to_string());
+}
+
+/* The directory handed to build()/clean()/serve() as ruler's own.  ".ruler" unless the case says
+   otherwise (a configuration the checks vary: a change that hard-codes the default must show). */
+pub fn ruler_dir() -> String
+{
+    RULER_DIR_NAME.with(|n| n.borrow().clone())
+}
+
+pub fn set_ruler_dir(name : &str)
+{
+    RULER_DIR_NAME.with(|n| *n.borrow_mut() = name.to_string());
+}
 
 impl Case
 {
@@ -355,8 +370,26 @@ impl Case
        tens = 1 when paths are written as directory bundles */
     pub fn bundled(&self) -> bool { self.rule_files / 10 == 1 }
 
+    /* configuration markers ride in `dirs` (entries starting with '@' are not directories):
+       "@ruler=<dir>" names ruler's own directory, "@rules=<first>,<second>" the rules files */
+    pub fn marker(&self, key : &str) -> Option<String>
+    {
+        let prefix = format!("@{}=", key);
+        self.dirs.iter().find(|d| d.starts_with(&prefix)).map(|d| d[prefix.len()..].to_string())
+    }
+
+    pub fn ruler_dir_name(&self) -> String
+    {
+        self.marker("ruler").unwrap_or(".ruler".to_string())
+    }
+
     pub fn rulefile_paths(&self) -> Vec<String>
     {
+        if let Some(names) = self.marker("rules")
+        {
+            let v : Vec<String> = names.split(',').map(|s| s.to_string()).collect();
+            return if self.rule_files % 10 >= 2 { v } else { v[..1].to_vec() };
+        }
         if self.rule_files % 10 >= 2 { vec!["build.rules".to_string(), "more.rules".to_string()] }
         else { vec!["build.rules".to_string()] }
     }
